@@ -22,7 +22,7 @@
    (findings C01-F1..F4 live exactly there) — decided per run by the correspondence and the
    strict-content round trip oracle (partial). *)
 From Coq Require Import String List ZArith Bool Permutation.
-From Prov Require Import Str Sexp Tables Nsm NsmProofs Values Record World Jtree Json JsonProofs IsoProofs TimeProofs JsonRecProofs JsonContProofs JsonPrefixProofs JsonDocProofs JsonBundleProofs.
+From Prov Require Import Str Sexp Tables Nsm NsmProofs Values Record World Jtree Json JsonProofs IsoProofs TimeProofs JsonRecProofs JsonContProofs JsonPrefixProofs JsonDocProofs JsonBundleProofs IdemProofs Interp InterpProofs JsonValueProofs.
 Import ListNotations.
 Open Scope string_scope.
 
@@ -70,6 +70,21 @@ Theorem C01_decoded_wellformed : forall ft t nd, decode_doc ft t = OK nd ->
   WorldProofs.DCoh nd /\ StrProofs.uniq (dbundles nd).
 Proof. exact decode_doc_inv. Qed.
 Print Assumptions C01_decoded_wellformed.
+
+(* ---- all value kinds at once.  stored: what a record can hold after normalisation (a typed literal stays a Literal
+   only when the library does not convert its datatype); value_ok: the value's names are declared in the reading
+   container and printable, its datetime valid, its float in the table.  And in every reachable world every value of
+   every record is stored (GoodProofs), so only value_ok is left as a condition. *)
+Theorem C01_value_any_stored : forall c m v, Builtins m -> stored (cft c) v -> value_ok c m v -> rt c m v.
+Proof. exact rt_of_stored. Qed.
+Print Assumptions C01_value_any_stored.
+
+Theorem C01_value_reachable : forall ft ops cr b r k vs v c m,
+  let w := InterpProofs.wrun ft ops in
+  World.get_cont w cr = Some b -> In r (brecs b) -> In (k, vs) (rattrs r) -> In v vs ->
+  cft c = wft w -> Builtins m -> value_ok c m v -> rt c m v.
+Proof. exact reachable_value_roundtrip. Qed.
+Print Assumptions C01_value_reachable.
 
 (* ---- attribute level: one member per attribute; n values come back as n (attribute, value)
    arguments, in order, each normalising to the value written *)
